@@ -14,7 +14,7 @@ theorem c11_seqno_dominates (db : DbL) :
     (∀ r ∈ db.active.recs, r.seqno < db.recover.seqno) := by
   -- name the pieces of `recover`
   simp only [DbL.recover]
-  generalize hk2 : (List.foldl replayRec _ db.active.recs) = kss2
+  generalize hk2 : (List.foldl replayRec _ _) = kss2
   generalize hall : ((kss2.flatMap fun k => (k.tables ++ k.sealedMem ++ k.mem).map (·.seqno)) ++
     (db.sealed.flatMap fun j => j.recs.map (·.seqno)) ++ db.active.recs.map (·.seqno)) = all
   have hmax := (foldl_max_ge all 0).2
@@ -37,7 +37,7 @@ theorem c11_overwrite_wins (db : DbL) (k0 : KsL) (hk : db.find k0.id = some k0) 
     ((db.write [(k0.id, .put key v)]).absOf k0.id).get key = some v ∧
     ((db.write [(k0.id, .del key)]).absOf k0.id).get key = none := by
   have hfind : ∀ items, (db.write items).find k0.id =
-      some (replayKs k0 (items.map fun (ks, op) => (⟨db.seqno, ks, op⟩ : Rec))) := by
+      some (replayKs k0 (items.map fun (ks, op) => (⟨db.seqno, ks, op, false⟩ : Rec))) := by
     intro items
     simp only [DbL.find, write_kss]
     rw [find_map_id _ _ (fun k => by simp [replayKs_id])]
